@@ -14,6 +14,7 @@ import (
 	"net"
 	"net/netip"
 	"os"
+	"runtime"
 	"strings"
 	"sync"
 	"sync/atomic"
@@ -123,40 +124,16 @@ func (w *simWorld) eventf(format string, a ...any) {
 	w.mu.Unlock()
 }
 
-// realSleep makes a goroutine of a bubble wait for d of *real* time.  A sleep on the bubble's clock needs every other
-// goroutine of the bubble to be durably blocked before it ends - and one that waits for a sync.Mutex held by the
-// sleeper never is: code that serialises its scrapes with a mutex (a perfectly good implementation) would hang a
-// check whose fake State sleeps.  The wait below is on channels created outside the bubble, served by a goroutine
-// outside the bubble with a real timer: the bubble's clock simply stands still meanwhile.
-type realSleepReq struct {
-	d    time.Duration
-	done chan struct{}
-}
-
-var (
-	realSleepReqC = make(chan realSleepReq, 64)
-	realSleepPool = make(chan chan struct{}, 64)
-)
-
-func init() {
-	for i := 0; i < cap(realSleepPool); i++ {
-		realSleepPool <- make(chan struct{}, 1)
-	}
-	go func() {
-		for r := range realSleepReqC {
-			time.AfterFunc(r.d, func() { r.done <- struct{}{} })
-		}
-	}()
-}
-
+// realSleep makes a goroutine of a bubble let others run for roughly d of *real* time without touching the bubble's
+// clock.  A sleep on the bubble's clock needs every other goroutine of the bubble to be durably blocked before it
+// ends - and one that waits for a sync.Mutex held by the sleeper never is: code that serialises its scrapes with a
+// mutex (a perfectly good implementation) would hang a check whose fake State sleeps.  So the goroutine stays
+// runnable and yields the processor again and again instead (a timer outside the bubble would do too, but fires a
+// millisecond late however short it is set, and the overlap rounds wait thousands of times).
 func realSleep(d time.Duration) {
-	if d <= 0 {
-		return
+	for n := int(d / (200 * time.Nanosecond)); n > 0; n-- {
+		runtime.Gosched()
 	}
-	done := <-realSleepPool
-	realSleepReqC <- realSleepReq{d, done}
-	<-done
-	realSleepPool <- done
 }
 
 // simState implements system.State on the world.
